@@ -162,9 +162,32 @@ def check_volume(rng):
         rng.standard_normal((n, d)) if kind == "gauss" else rng.random((n, d)) if kind == "uniform" else \
         rng.standard_normal((n, d)) + 6 * (rng.random((n, 1)) < 0.3) if kind == "bimodal" else rng.standard_t(2.5, (n, d))
     w = rng.dirichlet(np.full(n, 10 ** rng.uniform(-0.5, 1))) if rng.random() < 0.8 else None
+    if rng.random() < 0.2 and d > 1:
+        # structurally degenerate pools (the regularised branch of the metric): a constant coordinate, a repeated coordinate,
+        # or fewer than d+1 samples carrying weight
+        sub = str(rng.choice(["const-coord", "dup-coord", "few-weighted"]))
+        kind = kind + "+" + sub
+        if sub == "const-coord":
+            x[:, int(rng.integers(d))] = float(rng.choice([0.0, 0.5, rng.standard_normal()]))
+        elif sub == "dup-coord":
+            x[:, 0] = x[:, d - 1]
+        else:
+            w = np.zeros(n)
+            keep = rng.choice(n, size=int(rng.integers(2, d + 1)), replace=False)
+            w[keep] = rng.dirichlet(np.ones(len(keep)))
     with np.errstate(all="ignore"):
         v = float(volume_variation(x, None if w is None else w.copy()))
     desc = dict(d=d, n=n, kind=kind, weighted=w is not None)
+    # multiplying the samples by a power of two is exact in floating point: every intermediate quantity (covariance, rank
+    # decision, ridge, distances) scales exactly, so the metric must not move at all - on any pool, degenerate or not
+    if np.isfinite(v):
+        for kexp in (-20, -33, -40, 17):
+            with np.errstate(all="ignore"):
+                vs = float(volume_variation(x * 2.0 ** kexp, None if w is None else w.copy()))
+            if not (abs(vs - v) <= 1e-12 * max(abs(v), 1e-300)):
+                bad.append(("volume-sample-scale", f"samples multiplied by 2**{kexp} ({kind} pool): {v!r} -> {vs!r}"))
+                break
+        desc["pow2"] = 4
     if not (v >= 0) or not np.isfinite(v):
         bad.append(("volume-negative", f"volume_variation={v!r}"))
         return bad, desc, False
@@ -268,6 +291,9 @@ def run():
             if vdesc:
                 ck.case(dict(volume=vdesc), nontrivial=judged)
                 ck.event("volume_variation case")
+                ck.event("volume_variation under exact power-of-two rescaling of the samples", vdesc.get("pow2", 0))
+                if "+" in vdesc.get("kind", ""):
+                    ck.event("structurally degenerate pools (regularised branch) under power-of-two rescaling")
                 if judged:
                     ck.event("volume_variation affine invariance judged")
                 else:
